@@ -232,6 +232,19 @@ var scenarios = []scenario{
 		w.con.Release()
 		w.vx.Close()
 	}},
+	{name: "cursor-position-unanswered-then-F3", queue: 8, caps: refterm.CapRGB | refterm.CapSync, body: func(w *world) {
+		w.con.Mute = true
+		row, col := w.vx.CursorPosition()
+		w.con.Mute = false
+		if row != -1 || col != -1 {
+			w.failf("cursor-position", "CursorPosition returned %d,%d although the terminal never answered", row, col)
+		}
+		// Shift+F3 has the shape of a cursor position report
+		typeBytes(w, "shift-f3", "\x1b[1;2R")
+		typeBytes(w, "f3", "\x1b[R")
+		w.until(func() bool { return w.seen("key:Shift+F3") && w.seen("key:F3") })
+		w.vx.Close()
+	}},
 	{name: "clipboard", queue: 8, hold: true, body: func(w *world) {
 		vsched.AddEnv("terminal-replies", true, func() bool { return len(w.con.Held) > 0 }, func() { w.con.Release() })
 		ctx, cancel := vctx.WithTimeout(vctx.Background(), 20*time.Millisecond)
